@@ -132,6 +132,8 @@ func (g *c03gen) body(kind int) *Block {
 		b.Stmts = append(b.Stmts, g.cmd(), &Stmt{K: "if", If: &If{Arms: []*Arm{{Cond: cond, Body: &Block{Stmts: []*Stmt{g.cmd(), sBreak()}}}}}}, g.cmd())
 	case 5:
 		b.Stmts = append(b.Stmts, sBreak(), g.cmd())
+	case 7:
+		b.Stmts = append(b.Stmts, sBreak())
 	case 6:
 		cond := eLeaf(&Leaf{Kind: "flag", Operand: []string{fmt.Sprintf("FLAG_%d", rapid.IntRange(0, 2).Draw(g.t, "bf"))}})
 		b.Stmts = append(b.Stmts, &Stmt{K: "if", If: &If{Arms: []*Arm{{Cond: cond, Body: &Block{Stmts: []*Stmt{g.cmd()}}}}, Else: &Block{Stmts: []*Stmt{g.cmd()}}}})
@@ -219,7 +221,7 @@ func genC03(t *rapid.T) *C03Case {
 		} else {
 			cs.Val = []string{caseValTok(vals[i], rapid.IntRange(0, 3).Draw(t, "vform"))}
 		}
-		kind := rapid.SampledFrom([]int{0, 0, 0, 1, 1, 2, 3, 4, 5, 6}).Draw(t, "bodykind")
+		kind := rapid.SampledFrom([]int{0, 0, 0, 1, 1, 2, 3, 4, 5, 6, 7}).Draw(t, "bodykind")
 		cs.Body = g.body(kind)
 		// continue is accepted only directly before '}' : last statement of the last case
 		if inLoop && i == nc-1 && kind != 0 && rapid.IntRange(0, 3).Draw(t, "cont") == 0 {
@@ -237,7 +239,7 @@ func init() {
 	register("C03", "TestC03_Switch", checkC03, c03Src)
 }
 
-const c03Rule = "one switch of 1-6 cases (distinct decimal/hex/symbolic values, default absent or at any position, bodies: empty, commands, break at the end / in the middle / inside a nested if / first, nested if; continue at the end of the last case inside loops) in 8 contexts (only/first/last statement, inside while, do-while, condition-less while, another switch's body, an if arm); for EVERY case value and one value matching nothing a scripted world fixes the var and the assembly run must equal the reference run, optimize off and on; plus exhaustive enumeration of all case lists with <=3 entries (thorough 4, 5 with fewer body kinds). non-trivial = the list has an empty case or a default that is not last AND two values produced different outcomes; distinct by source text"
+const c03Rule = "one switch of 1-6 cases (distinct decimal/hex/symbolic values, default absent or at any position, bodies: empty, commands, a lone break, break at the end / in the middle / inside a nested if / first, nested if; continue at the end of the last case inside loops) in 8 contexts (only/first/last statement, inside while, do-while, condition-less while, another switch's body, an if arm); for EVERY case value and one value matching nothing a scripted world fixes the var and the assembly run must equal the reference run, optimize off and on; plus exhaustive enumeration of all case lists with <=3 entries (thorough 4, 5 with fewer body kinds). non-trivial = the list has an empty case or a default that is not last AND two values produced different outcomes; distinct by source text"
 
 func TestC03_Regress(t *testing.T) { runRegress(t, "C03") }
 
@@ -259,9 +261,9 @@ func TestC03_Enum(t *testing.T) {
 		kinds []int
 		ctxs  []int
 	}
-	scopes := []scope{{1, []int{0, 1, 2, 3, 4, 5}, []int{0, 1, 2, 3, 4, 5, 6, 7}}, {2, []int{0, 1, 2, 3, 4, 5}, []int{0, 1, 2, 3, 4, 5, 6, 7}}, {3, []int{0, 1, 2, 5}, []int{0, 1, 3, 5}}}
+	scopes := []scope{{1, []int{0, 1, 2, 3, 4, 5, 7}, []int{0, 1, 2, 3, 4, 5, 6, 7}}, {2, []int{0, 1, 2, 3, 4, 5, 7}, []int{0, 1, 2, 3, 4, 5, 6, 7}}, {3, []int{0, 1, 2, 5, 7}, []int{0, 1, 3, 5}}}
 	if thorough() {
-		scopes = append(scopes, scope{3, []int{0, 1, 2, 3, 4, 5}, []int{0, 1, 2, 3, 4, 5, 6, 7}}, scope{4, []int{0, 1, 2, 5}, []int{0, 1, 3, 5}}, scope{5, []int{0, 1, 2}, []int{0, 1, 3}})
+		scopes = append(scopes, scope{3, []int{0, 1, 2, 3, 4, 5, 7}, []int{0, 1, 2, 3, 4, 5, 6, 7}}, scope{4, []int{0, 1, 2, 5, 7}, []int{0, 1, 3, 5}}, scope{5, []int{0, 1, 7}, []int{0, 1, 3}})
 	}
 	idx, count := 0, 0
 	for _, sc := range scopes {
@@ -321,6 +323,8 @@ func (g *c03gen) enumBody(kind int) *Block {
 		b.Stmts = append(b.Stmts, g.cmd(), &Stmt{K: "if", If: &If{Arms: []*Arm{{Cond: cond, Body: &Block{Stmts: []*Stmt{g.cmd(), sBreak()}}}}}}, g.cmd())
 	case 5:
 		b.Stmts = append(b.Stmts, sBreak(), g.cmd())
+	case 7:
+		b.Stmts = append(b.Stmts, sBreak())
 	}
 	return b
 }
